@@ -57,9 +57,12 @@ Section Frames.
     fold_left (fun acc pw => (add3 (fst acc) (scale3 (fst pw) (snd pw)), snd acc + snd pw)) (combine pts w) ((n0, n0, n0), n0).
   Definition mean3_weighted (pts : list V3) (w : list num) : V3 :=
     let s := wsum3 pts w in div3 (fst s) (snd s).
+  (* the weights are relative: each is divided by the mean weight (w.iter().sum() / w.len()) *)
+  Definition mean_weight (w : list num) : num := fold_left nadd w n0 / nofnat (length w).
   Definition centred3 (pts : list V3) (w : option (list num)) : V3 * list V3 :=
     match w with
-    | Some w => let c := mean3_weighted pts w in (c, map (fun pw => scale3 (sub3 (fst pw) c) (snd pw)) (combine pts w))
+    | Some w => let c := mean3_weighted pts w in let mw := mean_weight w in
+                (c, map (fun pw => scale3 (sub3 (fst pw) c) (snd pw / mw)) (combine pts w))
     | None => let c := mean3 pts in (c, map (fun p => sub3 p c) pts)
     end.
 
@@ -71,7 +74,8 @@ Section Frames.
     let s := wsum2 pts w in div2 (fst s) (snd s).
   Definition centred2 (pts : list V2) (w : option (list num)) : V2 * list V2 :=
     match w with
-    | Some w => let c := mean2_weighted pts w in (c, map (fun pw => scale2 (sub2 (fst pw) c) (snd pw)) (combine pts w))
+    | Some w => let c := mean2_weighted pts w in let mw := mean_weight w in
+                (c, map (fun pw => scale2 (sub2 (fst pw) c) (snd pw / mw)) (combine pts w))
     | None => let c := mean2 pts in (c, map (fun p => sub2 p c) pts)
     end.
 
